@@ -61,6 +61,8 @@ func (env *Env) noteRefOwned(t Term, gt types.Type, owner Term) {
 	default:
 		if lo, hi, ok := intRange(gt); ok {
 			f = and(app("<=", lo, t), app("<=", t, hi))
+		} else if b, ok := gt.Underlying().(*types.Basic); ok && b.Info()&types.IsString != 0 {
+			f = app("<=", app("slen", t), "1099511627776")
 		} else {
 			return
 		}
